@@ -69,9 +69,12 @@ def error_module_aliases(tree):
     return mods, fns
 
 
-def diagnostic_calls(with_pos=False):
+def diagnostic_calls(with_pos=False, with_args=False):
     """Every call of a level function: (file, enclosing function, level, badness expr or None);
-    with_pos (additive, default off): also (lineno, end_lineno) of the call expression."""
+    with_pos (additive, default off): also (lineno, end_lineno) of the call expression;
+    with_args (additive, default off): also (number of positional arguments, source of the culprit
+    argument — second positional or keyword `culprit`, "" when absent or the literal None —, sorted
+    keyword names joined by ",")."""
     out = []
     for rel, src in source_files():
         tree = ast.parse(src)
@@ -104,8 +107,17 @@ def diagnostic_calls(with_pos=False):
                         bad = ast.unparse(node.args[2])
                     if any(isinstance(a, ast.Starred) for a in node.args):
                         bad = "*args"
-                    out.append((rel, self.where, level, bad, node.lineno, node.end_lineno) if with_pos
-                               else (rel, self.where, level, bad))
+                    row = (rel, self.where, level, bad, node.lineno, node.end_lineno) if with_pos \
+                        else (rel, self.where, level, bad)
+                    if with_args:
+                        culprit = node.args[1] if len(node.args) >= 2 else None
+                        for kw in node.keywords:
+                            if kw.arg == "culprit":
+                                culprit = kw.value
+                        csrc = "" if culprit is None or (isinstance(culprit, ast.Constant) and culprit.value is None) \
+                            else ast.unparse(culprit)
+                        row = row + (len(node.args), csrc, ",".join(sorted(kw.arg or "**" for kw in node.keywords)))
+                    out.append(row)
                 self.generic_visit(node)
 
         V().visit(tree)
@@ -158,4 +170,16 @@ def diagnostic_sites():
         k = seen.get((rel, fn, level), 0)
         seen[(rel, fn, level)] = k + 1
         out.append(dict(file=rel, fn=fn, level=level, k=k, lineno=lo, end_lineno=hi))
+    return out
+
+
+def diagnostic_site_args():
+    """(additive) as `diagnostic_sites`, each with `nargs`, `culprit` (source text, "" = none) and `keywords`."""
+    seen = {}
+    out = []
+    for rel, fn, level, _bad, lo, hi, nargs, culprit, kws in sorted(diagnostic_calls(with_pos=True, with_args=True),
+                                                                     key=lambda c: (c[0], c[4])):
+        k = seen.get((rel, fn, level), 0)
+        seen[(rel, fn, level)] = k + 1
+        out.append(dict(file=rel, fn=fn, level=level, k=k, lineno=lo, end_lineno=hi, nargs=nargs, culprit=culprit, keywords=kws))
     return out
